@@ -36,26 +36,21 @@ theorem pi_noprint_is_pi {σ : Type} (T : Tables σ) {B : ℕ} (hT : TablesOK T 
   pi_noprint_fixpoint T hT phi pi x hx hphi hrec
 
 /-- **`piApi_eq_pi`** — `pi(int128_t x)` for EVERY int128 `x` (negative → 0, `x ≤ INT64_MAX` → the 64-bit dispatcher, above →
-    `pi_gourdon_128`): with the nested `pi_noprint` calls computed by the same dispatcher (`hrec`, any executions), the result is
-    π(x); the only other outcome is `badRun` for a recorded D history that is not a run.  No route hypothesis.
-    `hpiWide` is vacuous for `x ≤ 2^63`; beyond, it concerns arguments at which the real code never calls `pi_noprint` (its
-    parameter is `int64_t`; `B_thread` calls it at `x / prime ≤ x / y < 2^63`, `range_check_guarantee`) — it is there only
-    because `B_refines` is stated with `pi = π` below `x`. -/
+    `pi_gourdon_128`): with the nested `pi_noprint` calls computed by the same dispatcher (`hrec`: any executions, only at int64
+    arguments below `x` — `B_thread` calls `pi_noprint(x / prime, 1)` with `x / prime ≤ x / y ≤ INT64_MAX`, `bOpenMP_eq_sharp`), the
+    result is π(x); the only other outcome is `badRun` for a recorded D history that is not a run.  No route hypothesis. -/
 theorem piApi_eq_pi {σ : Type} (T : Tables σ) {B : ℕ} (hT : TablesOK T B) (phi : ℕ → ℕ → ℕ) (pi : ℕ → ℕ) (x : ℤ)
     (hx : x < 2 ^ 127) (threads : ℤ) (isPrint : Bool) (r : ApiRun)
     (hphi : ∀ n : ℕ, (n : ℤ) ≤ x → PhiContract phi n)
     (hrec : ∀ n : ℕ, (n : ℤ) < x → n < 2 ^ 63 → ∃ (threads : ℤ) (r : ApiRun), (maxCached < n → ApiExec T B false n r) ∧
       piApi64 T phi pi (n : ℤ) threads false r = .ok (pi n : ℤ))
-    (hpiWide : ∀ n : ℕ, 2 ^ 63 ≤ n → (n : ℤ) < x → pi n = π n)
     (hex : (maxCached : ℤ) < x → ApiExec T B (decide ((PiApi.int64Max : ℤ) < x)) x.toNat r) :
     piApi128 T phi pi x threads isPrint r = .ok (π x.toNat : ℤ) ∨
       piApi128 T phi pi x threads isPrint r = .error (.hard .badRun) := by
-  have hpi : ∀ n : ℕ, (n : ℤ) < x → pi n = π n := by
-    intro n hn
-    rcases Nat.lt_or_ge n (2 ^ 63) with h63 | h63
-    · exact pi_noprint_fixpoint T hT phi pi (n + 1) (by omega) (fun m hm => hphi m (by omega))
-        (fun m hm => hrec m (by omega) (by omega)) n (by omega)
-    · exact hpiWide n h63 hn
+  have hpi : ∀ n : ℕ, (n : ℤ) < x → n < 2 ^ 63 → pi n = π n := by
+    intro n hn h63
+    exact pi_noprint_fixpoint T hT phi pi (n + 1) (by omega) (fun m hm => hphi m (by omega))
+      (fun m hm => hrec m (by omega) (by omega)) n (by omega)
   by_cases h0 : 0 ≤ x
   · exact piApi128_step T hT phi pi x hx threads isPrint r (hphi x.toNat (by omega)) hpi hex
   · left
